@@ -19,6 +19,7 @@ PROGRAMS = [
     "%my var% + %a.b% * 2 # trailing ) comment\nnot z",
     "m = [[1, 2],\n     [3, 4]]\nm | map(r => r | sum)",
     "p = 1;q = 2 ; p - -q",
+    "v = -x.f(3)\nw = not s.g('a', 1)\nn = 7.str() + [10.max(3), 2][0].str()\n-v.h(w) | k(n)",
 ]
 
 
@@ -214,7 +215,7 @@ def layout_rewrite(ri: int, pos: int) -> None:
 STRAY = [')', ']', 'stray', '=>', '}', '1.5', ':', '$', '"', 'for', '))', '\x00']
 
 
-def error_line(si: int, pos: int, sep: int, trunc: bool) -> None:
+def error_line(si: int, pos: int, sep: int, trunc: bool, pre_list: bool = False) -> None:
     """
     pre: 0 <= si < 12 and 0 <= pos < 40 and 0 <= sep <= 2
     post: True
@@ -227,6 +228,8 @@ def error_line(si: int, pos: int, sep: int, trunc: bool) -> None:
     if not hlib.PARAM.get("class_only"):
         hlib.assume(si < 7)
     trunc = True if trunc else False
+    pre_list = True if pre_list else False
+    hlib.assume(hlib.deep() or not pre_list or (sep == 0 and si <= 2 and not trunc))
     res = None
     with hlib.native():
         base = PROGRAMS[pi]
@@ -239,6 +242,12 @@ def error_line(si: int, pos: int, sep: int, trunc: bool) -> None:
         if pos < len(bounds):
             b = bounds[pos]
             text = base[:b] if trunc else base[:b] + ' ' + STRAY[si] + ' ' + base[b:]
+            if pre_list:
+                # an earlier, partly consumed list_names() on multi-line text with an open bracket must not matter
+                g = PARSER.list_names("a = [1,\n 2,\n b(\n c")
+                next(g, None)
+                next(g, None)
+                list(PARSER.list_names("x\ny\n(z"))
             seen = {}
             orig = PARSER.yacc.errorfunc
 
